@@ -563,6 +563,144 @@ def execRenameNx (s : State) (a b : Nat) : State × Reply :=
     if (NMap.get s b).isSome then (s, .int 0)
     else (NMap.insert b e (NMap.erase a s), .int 1)
 
+/-! ## lists -/
+
+inductive ListLookup
+  | missing
+  | wrong
+  | found (l : List BS) (dl : Option Nat)
+
+def lookupList (s : State) (k : Nat) : ListLookup :=
+  match NMap.get s k with
+  | none => .missing
+  | some e =>
+    match e.val with
+    | .list l => .found l e.dl
+    | _ => .wrong
+
+/-- store a list; an empty list is not stored: the key (and its deadline) disappears -/
+def putList (s : State) (k : Nat) (l : List BS) (dl : Option Nat) : State :=
+  match l with
+  | [] => NMap.erase k s
+  | _ :: _ => NMap.insert k ⟨.list l, dl⟩ s
+
+inductive Side | left | right
+  deriving DecidableEq, Repr
+
+/-- LPUSH a b c puts c at the head (elements are pushed one after the other) -/
+def pushMany (side : Side) (l : List BS) (vs : List BS) : List BS :=
+  match side with
+  | .left => vs.reverse ++ l
+  | .right => l ++ vs
+
+/-- LPUSH / RPUSH: creates the list (no deadline) or extends it (deadline kept) -/
+def execPush (side : Side) (s : State) (k : Nat) (vs : List BS) : State × Reply :=
+  match vs with
+  | [] => (s, .err .syntax)       -- arity error in Redis; never produced by a parser
+  | _ :: _ =>
+    match lookupList s k with
+    | .wrong => (s, .err .wrongType)
+    | .missing => (putList s k (pushMany side [] vs) none, .int (pushMany side [] vs).length)
+    | .found l dl => (putList s k (pushMany side l vs) dl, .int (pushMany side l vs).length)
+
+/-- remove one element from an end: (element, rest) -/
+def popSide (side : Side) (l : List BS) : Option (BS × List BS) :=
+  match side with
+  | .left =>
+    match l with
+    | [] => none
+    | x :: xs => some (x, xs)
+  | .right =>
+    match l.getLast? with
+    | none => none
+    | some x => some (x, l.dropLast)
+
+/-- LPOP / RPOP (no count): nil on a missing key; the key vanishes with its last element -/
+def execPop (side : Side) (s : State) (k : Nat) : State × Reply :=
+  match lookupList s k with
+  | .missing => (s, .nil)
+  | .wrong => (s, .err .wrongType)
+  | .found l dl =>
+    match popSide side l with
+    | none => (s, .nil)
+    | some (x, rest) => (putList s k rest dl, .bulk x)
+
+def execLLen (s : State) (k : Nat) : State × Reply :=
+  match lookupList s k with
+  | .missing => (s, .int 0)
+  | .wrong => (s, .err .wrongType)
+  | .found l _ => (s, .int l.length)
+
+/-- position of a (possibly negative) index, `none` = out of range -/
+def listIdx (len : Nat) (i : Int) : Option Nat :=
+  let j := if i < 0 then i + len else i
+  if j < 0 ∨ j ≥ len then none else some j.toNat
+
+def execLIndex (s : State) (k : Nat) (i : Int) : State × Reply :=
+  match lookupList s k with
+  | .missing => (s, .nil)
+  | .wrong => (s, .err .wrongType)
+  | .found l _ =>
+    match listIdx l.length i with
+    | none => (s, .nil)
+    | some n =>
+      match l[n]? with
+      | none => (s, .nil)
+      | some x => (s, .bulk x)
+
+/-- LRANGE / LTRIM normalisation (t_list.c): start clamped at 0, an end that is still negative
+    or a start beyond the end selects nothing, end clamped at len-1 -/
+def lrangeNorm (len : Nat) (a b : Int) : Option (Nat × Nat) :=
+  if normIdx len a > (if b < 0 then b + len else b) ∨ normIdx len a ≥ len then none
+  else some ((normIdx len a).toNat,
+             (clampEnd len (if b < 0 then b + len else b) - normIdx len a + 1).toNat)
+
+def execLRange (s : State) (k : Nat) (a b : Int) : State × Reply :=
+  match lookupList s k with
+  | .missing => (s, .arr [])
+  | .wrong => (s, .err .wrongType)
+  | .found l _ => (s, .arr ((slice l (lrangeNorm l.length a b)).map Elem.bulk))
+
+def execLSet (s : State) (k : Nat) (i : Int) (v : BS) : State × Reply :=
+  match lookupList s k with
+  | .missing => (s, .err .noSuchKey)
+  | .wrong => (s, .err .wrongType)
+  | .found l dl =>
+    match listIdx l.length i with
+    | none => (s, .err .indexRange)
+    | some n => (putList s k (l.set n v) dl, .ok)
+
+/-- LTRIM keeps the selected range; nothing selected → the key is deleted -/
+def execLTrim (s : State) (k : Nat) (a b : Int) : State × Reply :=
+  match lookupList s k with
+  | .missing => (s, .ok)
+  | .wrong => (s, .err .wrongType)
+  | .found l dl => (putList s k (slice l (lrangeNorm l.length a b)) dl, .ok)
+
+def pushOne (side : Side) (l : List BS) (x : BS) : List BS :=
+  match side with
+  | .left => x :: l
+  | .right => l ++ [x]
+
+/-- LMOVE src dst from to (RPOPLPUSH = LMOVE … RIGHT LEFT), lmoveGenericCommand: a missing
+    source answers nil before the destination is looked at; BOTH types are checked before
+    anything is popped; `src = dst` rotates in place (deadline kept); the source vanishes with
+    its last element; a new destination has no deadline, an existing one keeps its own. -/
+def execLMove (s : State) (src dst : Nat) (frm to : Side) : State × Reply :=
+  match lookupList s src with
+  | .missing => (s, .nil)
+  | .wrong => (s, .err .wrongType)
+  | .found l dl =>
+    match popSide frm l with
+    | none => (s, .nil)
+    | some (x, rest) =>
+      if src = dst then (putList s src (pushOne to rest x) dl, .bulk x)
+      else
+        match lookupList s dst with
+        | .wrong => (s, .err .wrongType)
+        | .missing => (putList (putList s src rest dl) dst [x] none, .bulk x)
+        | .found l' dl' => (putList (putList s src rest dl) dst (pushOne to l' x) dl', .bulk x)
+
 /-! ## commands -/
 
 inductive Cmd
@@ -606,6 +744,18 @@ inductive Cmd
   | expiretime (k : Nat)
   | pexpiretime (k : Nat)
   | persist (k : Nat)
+  -- lists
+  | lpush (k : Nat) (vs : List BS)
+  | rpush (k : Nat) (vs : List BS)
+  | lpop (k : Nat)
+  | rpop (k : Nat)
+  | llen (k : Nat)
+  | lindex (k : Nat) (i : Int)
+  | lrange (k : Nat) (a b : Int)
+  | lset (k : Nat) (i : Int) (v : BS)
+  | ltrim (k : Nat) (a b : Int)
+  | rpoplpush (src dst : Nat)
+  | lmove (src dst : Nat) (frm to : Side)
   deriving Repr
 
 /-- execute on a state that holds no dead entry -/
@@ -646,6 +796,17 @@ def exec (s : State) (now : Nat) : Cmd → State × Reply
   | .expiretime k => execExpireTime s k
   | .pexpiretime k => execPExpireTime s k
   | .persist k => execPersist s k
+  | .lpush k vs => execPush .left s k vs
+  | .rpush k vs => execPush .right s k vs
+  | .lpop k => execPop .left s k
+  | .rpop k => execPop .right s k
+  | .llen k => execLLen s k
+  | .lindex k i => execLIndex s k i
+  | .lrange k a b => execLRange s k a b
+  | .lset k i v => execLSet s k i v
+  | .ltrim k a b => execLTrim s k a b
+  | .rpoplpush a b => execLMove s a b .right .left
+  | .lmove a b f t => execLMove s a b f t
 
 /-- one command at instant `now` -/
 def step (s : State) (now : Nat) (c : Cmd) : State × Reply := exec (purge s now) now c
@@ -660,7 +821,8 @@ def run : State → List (Nat × Cmd) → State × List Reply
     the modelled commands; compared with the real classification on every op by the harness -/
 def isReadOnly : Cmd → Bool
   | .get _ | .getrange _ _ _ | .strlen _ | .mget _ | .exists _ | .type _ | .keys
-  | .ttl _ | .pttl _ | .expiretime _ | .pexpiretime _ | .randomkey _ | .dbsize => true
+  | .ttl _ | .pttl _ | .expiretime _ | .pexpiretime _ | .randomkey _ | .dbsize
+  | .llen _ | .lindex _ _ | .lrange _ _ _ => true
   | _ => false
 
 /-! ## invariant -/
